@@ -6,7 +6,7 @@ Open Scope N_scope.
 
 Definition gen_rules : rules :=
   Rules gen_follower_ack gen_follower_commit gen_stale_ack_ignored gen_vote_log_ok gen_prev_ok gen_commit_pick gen_commit_term_ok
-        gen_entries_need_prev gen_gap_refused.
+        gen_entries_need_prev gen_gap_refused gen_finalize_ok.
 (* a cluster of n >= 1 voters whose quorum is the one the code computes *)
 (* ab, mp: adaptive backoff and its maximal power; tr: snapshot_trailing_logs *)
 Definition cluster (n : N) (ab : bool) (mp tr : N) : config := Cfg n (gen_quorum n) ab mp tr.
@@ -16,7 +16,7 @@ Ltac gen_hyps n :=
   first [ cbn [cluster n_nodes quorum]; pose proof (gen_quorum_majority n); lia
         | cbn [cluster n_nodes quorum]; pose proof (gen_quorum_within n); lia
         | intros; apply gen_ack_verified | intros; apply gen_commit_verified; assumption | reflexivity
-        | apply gen_prev_sound | apply gen_entries_with_known_prev | apply gen_vote_up_to_date | apply gen_pick_quorum | apply gen_commit_current_term ].
+        | apply gen_prev_sound | apply gen_entries_with_known_prev | apply gen_vote_up_to_date | apply gen_pick_quorum | apply gen_commit_current_term | apply gen_finalize_within_commit ].
 
 (* ELECTION SAFETY.  For every cluster size, every schedule of timeouts, pre-votes, (re)broadcasts,
    heartbeats, proposals, message deliveries in any order with duplication and loss, refusal
@@ -87,15 +87,7 @@ Theorem C01_state_machine_safety : forall n ab mp tr ops1 ops2 i j k,
   firstn k (log (nth_node (nodes s1) i)) = firstn k (log (nth_node (nodes s2) j)) /\
   (k <= length (log (nth_node (nodes s1) i)))%nat.
 Proof.
-  intros n ab mp tr ops1 ops2 i j k cfg s1 s2 Hi Hj. apply (state_machine_safety cfg gen_rules); auto.
-  - cbn [cfg cluster n_nodes quorum]. pose proof (gen_quorum_majority n). lia.
-  - cbn [cfg cluster n_nodes quorum]. pose proof (gen_quorum_within n). lia.
-  - intros p ln len. apply gen_ack_verified.
-  - intros lc c p ln len. apply gen_commit_verified.
-  - apply gen_prev_sound.
-  - apply gen_vote_up_to_date.
-  - apply gen_pick_quorum.
-  - apply gen_commit_current_term.
+  intros n ab mp tr ops1 ops2 i j k cfg s1 s2 Hi Hj. apply (state_machine_safety cfg gen_rules); auto; unfold cfg; gen_hyps n.
 Qed.
 
 (* ... "and every later leader's log contains that entry": if node i's commit index is at least k after ops1,
@@ -111,15 +103,7 @@ Theorem C01_leader_holds_committed : forall n ab mp tr ops1 ops2 i c k,
   firstn k (log (nth_node (nodes s2) c)) = firstn k (log (nth_node (nodes s1) i)) /\
   (k <= length (log (nth_node (nodes s2) c)))%nat.
 Proof.
-  intros n ab mp tr ops1 ops2 i c k cfg s1 s2 Hi Hc. apply (leader_holds_committed cfg gen_rules); auto.
-  - cbn [cfg cluster n_nodes quorum]. pose proof (gen_quorum_majority n). lia.
-  - cbn [cfg cluster n_nodes quorum]. pose proof (gen_quorum_within n). lia.
-  - intros p ln len. apply gen_ack_verified.
-  - intros lc c0 p ln len. apply gen_commit_verified.
-  - apply gen_prev_sound.
-  - apply gen_vote_up_to_date.
-  - apply gen_pick_quorum.
-  - apply gen_commit_current_term.
+  intros n ab mp tr ops1 ops2 i c k cfg s1 s2 Hi Hc. apply (leader_holds_committed cfg gen_rules); auto; unfold cfg; gen_hyps n.
 Qed.
 
 (* MONOTONE: along every schedule a node's term never decreases, and its commit index decreases only when that
